@@ -120,6 +120,24 @@ func main() {
 			runKcCase(c)
 			emit(c)
 		}
+	case "compile":
+		if replay != "" {
+			var c compileCase
+			mustReadJSON(replay, &c)
+			c.Results = nil
+			c.Front.Rules = nil
+			begin(&c)
+			runCompileCase(&c)
+			emit(&c)
+			return
+		}
+		for i := lo; i < hi; i++ {
+			r := newRng(*seed*1000003 + uint64(i))
+			c := genCompileCase(r, i)
+			begin(c)
+			runCompileCase(c)
+			emit(c)
+		}
 	case "eval":
 		mode := "stmt"
 		if *filter != "" {
